@@ -19,22 +19,61 @@ section does to the call table is at most waking parked `WaitExited` calls -/
 structure WrSame (s s' : St) : Prop extends WrOnly s s' where
   dn : ∀ (i : Nat) (c' : Call), s'.calls[i]? = some c' → ∃ c : Call, s.calls[i]? = some c ∧ c.op = c'.op ∧
         (∀ r, c'.st = .done r ↔ c.st = .done r)
+  /-- … nor whether they have returned -/
+  fin : ∀ (i : Nat) (c' : Call), s'.calls[i]? = some c' → ∃ c : Call, s.calls[i]? = some c ∧
+        (c'.st = .finished ↔ c.st = .finished)
+  /-- … and a call that has not had its critical section still has not -/
+  iv : ∀ (i : Nat) (c' : Call), s'.calls[i]? = some c' → ∃ c : Call, s.calls[i]? = some c ∧
+        (c.st = .invoked → c'.st = .invoked)
 
 theorem WrSame.toOnly {s s' : St} (h : WrSame s s') : WrOnly s s' := ⟨h.len, h.wr⟩
 theorem WrOnly.of_eq {s s' : St} (h : s'.calls = s.calls) : WrOnly s s' := ⟨by rw [h], fun _ => by rw [h]⟩
 
-theorem WrSame.refl (s : St) : WrSame s s := ⟨⟨rfl, fun _ => rfl⟩, fun _ c h => ⟨c, h, rfl, fun _ => Iff.rfl⟩⟩
+theorem WrSame.refl (s : St) : WrSame s s :=
+  ⟨⟨rfl, fun _ => rfl⟩, fun _ c h => ⟨c, h, rfl, fun _ => Iff.rfl⟩, fun _ c h => ⟨c, h, Iff.rfl⟩, fun _ c h => ⟨c, h, id⟩⟩
 theorem WrSame.of_eq {s s' : St} (h : s'.calls = s.calls) : WrSame s s' :=
-  ⟨⟨by rw [h], fun _ => by rw [h]⟩, fun i c hc => ⟨c, by rw [← h]; exact hc, rfl, fun _ => Iff.rfl⟩⟩
+  ⟨⟨by rw [h], fun _ => by rw [h]⟩, fun i c hc => ⟨c, by rw [← h]; exact hc, rfl, fun _ => Iff.rfl⟩,
+   fun i c hc => ⟨c, by rw [← h]; exact hc, Iff.rfl⟩, fun i c hc => ⟨c, by rw [← h]; exact hc, id⟩⟩
 theorem WrSame.trans {a b c : St} (h1 : WrSame a b) (h2 : WrSame b c) : WrSame a c := by
-  refine ⟨⟨h2.len.trans h1.len, fun i => (h2.wr i).trans (h1.wr i)⟩, ?_⟩
-  intro i c' hc'
-  obtain ⟨c1, g1, g2, g3⟩ := h2.dn i c' hc'
-  obtain ⟨c0, f1, f2, f3⟩ := h1.dn i c1 g1
-  exact ⟨c0, f1, f2.trans g2, fun r => (g3 r).trans (f3 r)⟩
+  refine ⟨⟨h2.len.trans h1.len, fun i => (h2.wr i).trans (h1.wr i)⟩, ?_, ?_, ?_⟩
+  rotate_left 2
+  · intro i c' hc'
+    obtain ⟨c1, g1, g2⟩ := h2.iv i c' hc'
+    obtain ⟨c0, f1, f2⟩ := h1.iv i c1 g1
+    exact ⟨c0, f1, fun h => g2 (f2 h)⟩
+  · intro i c' hc'
+    obtain ⟨c1, g1, g2, g3⟩ := h2.dn i c' hc'
+    obtain ⟨c0, f1, f2, f3⟩ := h1.dn i c1 g1
+    exact ⟨c0, f1, f2.trans g2, fun r => (g3 r).trans (f3 r)⟩
+  · intro i c' hc'
+    obtain ⟨c1, g1, g2⟩ := h2.fin i c' hc'
+    obtain ⟨c0, f1, f2⟩ := h1.fin i c1 g1
+    exact ⟨c0, f1, g2.trans f2⟩
 
 theorem wrSame_bcast (s : St) : WrSame s s.bcastNow := by
-  refine ⟨⟨by simp [St.bcastNow], ?_⟩, ?_⟩
+  refine ⟨⟨by simp [St.bcastNow], ?_⟩, ?_, ?_, ?_⟩
+  rotate_left 3
+  · intro i c' hc'
+    simp only [St.bcastNow, List.getElem?_map] at hc'
+    cases h : s.calls[i]? with
+    | none => rw [h] at hc'; cases hc'
+    | some c =>
+      rw [h] at hc'
+      simp only [Option.map_some, Option.some.injEq] at hc'
+      subst hc'
+      refine ⟨c, rfl, ?_⟩
+      intro hst; simp [Call.wakeUp, hst]
+  rotate_left 2
+  · intro i c' hc'
+    simp only [St.bcastNow, List.getElem?_map] at hc'
+    cases h : s.calls[i]? with
+    | none => rw [h] at hc'; cases hc'
+    | some c =>
+      rw [h] at hc'
+      simp only [Option.map_some, Option.some.injEq] at hc'
+      subst hc'
+      refine ⟨c, rfl, ?_⟩
+      simp only [Call.wakeUp]; cases hst : c.st <;> simp [hst]
   · intro i
     simp only [St.bcastNow, List.getElem?_map]
     cases h : s.calls[i]? with
